@@ -18,3 +18,5 @@ mod locks;
 mod spsc_async;
 #[cfg(kani)]
 mod oneshot;
+#[cfg(kani)]
+mod rendezvous;
